@@ -121,6 +121,7 @@ theorem pushToLastSink_ok (sv : Solver) (wf : sv.WF) (i : Nat) (hi : i < sv.u.le
     get_ok' sv.S (i + 1) (by have := wf.hS; omega), bind, Except.bind, pure, Except.pure]
   refine ⟨_, rfl, ⟨rfl, hocc, rfl, ?_⟩⟩
   simp only
+  unfold topOr
   split
   · exact Int.le_max_right _ _
   · exact Int.le_trans (Int.le_max_right _ _) (Int.le_max_left _ _)
@@ -172,9 +173,9 @@ structure Inv (sv : Solver) (st : St) : Prop where
   pos : 0 ≤ st.lastPosition
   pnn : ∀ x ∈ st.pRev, 0 ≤ x
 
-theorem push_safe (sv : Solver) (wf : sv.WF) (fuel i : Nat) (hi : i < sv.u.length) (st : St)
+theorem push_safe (sv : Solver) (wf : sv.WF) (i : Nat) (hi : i < sv.u.length) (st : St)
     (inv : Inv sv st) :
-    Safe (fun st' => Inv sv st' ∧ st'.pRev.length = st.pRev.length + 1) (push sv fuel i st) := by
+    Safe (fun st' => Inv sv st' ∧ st'.pRev.length = st.pRev.length + 1) (push sv i st) := by
   unfold push
   obtain ⟨o, e1, ho⟩ := updOpt_ok sv i hi sv.nbSinks st.optSink inv.opt
   obtain ⟨st1, e2, k1, k2, k3, k4⟩ :=
@@ -187,7 +188,7 @@ theorem push_safe (sv : Solver) (wf : sv.WF) (fuel i : Nat) (hi : i < sv.u.lengt
     (by simpa [k2] using inv.occ) hpos1
   simp only [e1, e2, get_ok' sv.D o (by have := wf.hD; omega), get_ok' sv.S i (by have := wf.hS; omega),
     e3, bind, Except.bind]
-  refine (pushLoop_safe sv wf i hi fuel st2 k5.occ k5.pos).bind ?_
+  refine (pushLoop_safe sv wf i hi _ st2 k5.occ k5.pos).bind ?_
   intro st3 k6
   refine Safe.ok ⟨⟨k6.occ, ?_, k6.pos, ?_⟩, ?_⟩
   · have : st3.optSink = o := by rw [k6.opt, k5.opt]; simp [k3]
@@ -201,15 +202,15 @@ theorem push_safe (sv : Solver) (wf : sv.WF) (fuel i : Nat) (hi : i < sv.u.lengt
   · have hp : st3.pRev = st.pRev := by rw [k6.pRev, k5.pRev]; simp [k1]
     simp [hp]
 
-theorem pushAll_safe (sv : Solver) (wf : sv.WF) (fuel cnt i : Nat) (h : i + cnt ≤ sv.u.length)
+theorem pushAll_safe (sv : Solver) (wf : sv.WF) (cnt i : Nat) (h : i + cnt ≤ sv.u.length)
     (st : St) (inv : Inv sv st) :
     Safe (fun st' => Inv sv st' ∧ st'.pRev.length = st.pRev.length + cnt)
-      (pushAll sv fuel cnt i st) := by
+      (pushAll sv cnt i st) := by
   induction cnt generalizing i st with
   | zero => exact ⟨inv, rfl⟩
   | succ cnt ih =>
     unfold pushAll
-    refine (push_safe sv wf fuel i (by omega) st inv).bind ?_
+    refine (push_safe sv wf i (by omega) st inv).bind ?_
     intro st1 ⟨inv1, hl⟩
     exact (ih (i + 1) (by omega) st1 inv1).mono (fun a ⟨ia, la⟩ => ⟨ia, by omega⟩)
 
